@@ -152,7 +152,7 @@ class C03(F.Check):
         'compression configuration here is the default negotiated one; all 256 configurations are C06',
         'close(code=None) (empty Close payload) and a bytearray close reason are executed but not judged beyond frame validity',
     ]
-    expect_sites = ('frame', 'reject', 'rsv1', 'close', 'lane-table', 'len16', 'len64', 'debug-logging', 'partial-write')
+    expect_sites = ('frame', 'reject', 'rsv1', 'close', 'lane-table', 'len16', 'len64', 'debug-logging', 'partial-write', 'reconnect')
 
     def rule(self, tier):
         return ('one Ready connection per (family, key, negotiated); every call in the family is made at Ready and its wire delta is decoded. '
@@ -179,6 +179,7 @@ class C03(F.Check):
         for base in range(0, 256, 16):
             jobs.append({'k': 'mask', 'keys': ['%02x%02x%02x%02x' % (k, (k + 1) & 255, (k + 2) & 255, (k + 3) & 255) for k in range(base, base + 16)]})
         jobs.append({'k': 'partial'})
+        jobs.append({'k': 'reconnect'})
         cc = close_cases()
         for i in range(0, len(cc), 12):
             jobs.append({'k': 'close', 'range': [i, min(len(cc), i + 12)]})
@@ -386,8 +387,73 @@ class C03(F.Check):
                                         '%s returned normally although sendall was interrupted after %s byte(s): wire holds %d frame(s) %s %s'
                                         % (api, where, len(frames), garbage or '', [f.problems for f in frames]), case)
 
+    # ------------------------------------------------------------------ several connections on one object
+    CHAIN_CALLS = [('send_text(chain)', 'send_text', ('chain chain chain chain \u20ac',), {}, ('frame', TEXT, 'chain chain chain chain \u20ac'.encode('utf-8'), True)),
+                   ('send_binary(chain)', 'send_binary', (b'chain chain chain chain',), {}, ('frame', BINARY, b'chain chain chain chain', True)),
+                   ('send_json(chain)', 'send_json', ({'chain': [1, 2, 3]},), {}, ('json', {'chain': [1, 2, 3]})),
+                   ('send_text(plain)', 'send_text', ('chain chain chain',), {'compress': False}, ('frame', TEXT, b'chain chain chain', False)),
+                   ('send_ping(chain)', 'send_ping', (b'chain',), {}, ('frame', PING, b'chain', False))]
+
+    def run_chain(self, negs, key='a1b2c3d4'):
+        """Connections one after the other on ONE WebSocket(compress=True); the k-th reply accepts permessage-deflate iff negs[k].
+        Every connection's frames are judged against what *that* connection negotiated."""
+        keyb = bytes.fromhex(key)
+        seen = {}
+
+        def server(world, conn):
+            i = seen.get(conn.idx, 0)
+            seen[conn.idx] = i + 1
+            if i == 0:
+                return W.Data(W.HANDSHAKE(EXT if negs[conn.idx] else b''))
+            return W.Eof()
+        world = W.World(server, keys=lambda n, k: keyb if n == 4 else bytes((k * 16 + i) & 0xFF for i in range(n)), max_waits=20 * len(negs))
+        out = []
+        with world:
+            ws = W.L_websocket.WebSocket('ws://example.com/x', proxies={}, compress=True)
+            world._ws = ws
+            for neg in negs:
+                records = []
+
+                def app(world, ws, e, _records=records):
+                    if e.name != 'ready':
+                        return
+                    for (label, api, args, kwargs, exp) in self.CHAIN_CALLS:
+                        before = len(world.wire())
+                        try:
+                            getattr(ws, api)(*args, **kwargs)
+                            status, err = 'ok', None
+                        except (W.Horizon, W.Deadlock, W.HarnessError):
+                            raise
+                        except BaseException as error:  # noqa
+                            status, err = 'raised', error
+                        _records.append((label, api, exp, status, err, world.wire()[before:], True))
+                run = W.drive(world, ws, ws.connect(poll=5, ping_rate=0, close_timeout=None), app)
+                out.append((run, records, neg))
+        return out
+
+    def reconnects(self, res):
+        import itertools
+        res.covered.add('reconnect')
+        for n in (2, 3):
+            for negs in itertools.product((False, True), repeat=n):
+                for k, (run, records, neg) in enumerate(self.run_chain(list(negs))):
+                    problems, outcomes = self.judge_records(records, neg, 'a1b2c3d4')
+                    res.executions += len(records)
+                    res.n_transitions += 1
+                    res.states.add(F.hs(('chain', negs, k)))
+                    res.outcomes[repr(('chain', negs, k, tuple(o[2:] for o in outcomes)))] += 1
+                    case = {'k': 'reconnect', 'negs': list(negs), 'connection': k}
+                    if len(records) != len(self.CHAIN_CALLS):
+                        res.violate('C03:connection:abnormal', 'connection #%d of chain %r did not reach Ready (events %r)' % (k, negs, run.names), case)
+                    for kind, msg, label in problems:
+                        res.violate('C03:%s:%s' % (label.split('(')[0], kind), 'connection #%d of a chain negotiating %r on one object: %s' % (k, list(negs), msg), case)
+
     def run_job(self, job):
         res = F.JobResult()
+        if job['k'] == 'reconnect':
+            self.reconnects(res)
+            res.samples.append({'reconnect': 'all chains of 2 and 3 connections over {declined, accepted}'})
+            return res
         if job['k'] == 'partial':
             self.partial_writes(res)
             res.samples.append({'partial_writes': 'EINTR/EAGAIN/EPIPE after 0, 1, 6, all bytes for 4 APIs'})
@@ -428,6 +494,10 @@ class C03(F.Check):
 
     def replay(self, case, verbose=True):
         out = []
+        if case['k'] == 'reconnect':
+            res = F.JobResult()
+            self.reconnects(res)
+            return [v for v in res.violations if v.case == case]
         if case['k'] == 'partial':
             res = F.JobResult()
             self.partial_writes(res)
